@@ -72,7 +72,8 @@ pub(crate) fn cbor_decode_serialize_mode<'b, Ctx>(
     _d: &mut minicbor::decode::Decoder<'b>,
     _ctx: &mut Ctx,
 ) -> Result<Arc<RwLock<SerializeMode>>, minicbor::decode::Error> {
-    Ok(Arc::new(RwLock::new(SerializeMode::NoInclude)))
+    //the mode is not stored in the file: a decoded item starts in the same mode as a new one (Config::default())
+    Ok(Arc::new(RwLock::new(SerializeMode::AllowInclude)))
 }
 
 pub(crate) fn cbor_encode_serialize_mode<Ctx, W: minicbor::encode::Write>(
